@@ -1,4 +1,4 @@
-"""U-CTORTY: env::TypeEnv::build_enum_constructor (whole) — C03, C06."""
+"""U-CTORTY: env::TypeEnv::{build_enum_constructor, lookup_struct_constructor} (whole) — C03, C06."""
 import re
 from vlib.gen import Unit, Fn, Adt, Raw
 
@@ -11,9 +11,10 @@ UNIT = Unit(
     rules=["attrs", ("strip", "tast::"), ("strip", "common::"), "iter_map_collect"],
     describe="env::TypeEnv::build_enum_constructor (whole): the constructor an enum variant's name denotes carries the enum's name, the variant's name and the variant's POSITION in "
              "the declaration (the tag the match compiler and the Go code switch on), and constructing with it has the type (the variant's declared payload types, in order) -> "
-             "(the enum, applied to its own type parameters when it is generic) — a constant of that type for a variant without payload",
-    trusted=["derived Clone is an identical copy; `index` is in range (precondition: the caller found the variant at that position); lookup_struct_constructor (a closure over "
-             "`Option::map`) is not in the unit"],
+             "(the enum, applied to its own type parameters when it is generic) — a constant of that type for a variant without payload. "
+             "lookup_struct_constructor: `Some` exactly for a known struct, named after it, with the type (declared field types, in order) -> (the struct at its own parameters)",
+    trusted=["derived Clone is an identical copy; `index` is in range (precondition: the caller found the variant at that position); `Option::map` with a closure is read as a match (rule opt_map); "
+             "enum_constructor_info / lookup_enum_constructor_in (iterator `find` + `map`) are not in the unit"],
     items=[
         Adt(file="crates/compiler/src/tast.rs", kw="enum", name="Ty", rules=["attrs"]),
         Adt(file="crates/compiler/src/tast.rs", kw="struct", name="TastIdent", rules=["attrs"]),
@@ -31,5 +32,19 @@ UNIT = Unit(
            contract="requires index < enum_def.variants@.len(),\nensures enum_ctor_ok(*enum_name, *enum_def, index as int, r),",
            loop_fn=lambda k, header, kw: (lambda mt: (f"invariant __mi{mt.group(1)} <= enum_def.generics.len(), __mo{mt.group(1)}@.len() == __mi{mt.group(1)},\n"
                f"  forall|j: int| 0 <= j < __mi{mt.group(1)} ==> (#[trigger] __mo{mt.group(1)}@[j]) == (Ty::TParam {{ name: enum_def.generics@[j].0 }}),\n decreases enum_def.generics.len() - __mi{mt.group(1)},") if mt else None)(re.search(r"__mi(\d+)", header))),
+        Adt(file=E, kw="struct", name="StructDef", rules=["attrs", ("strip", "tast::")]),
+        Raw(text="impl VClone for StructDef { #[verifier::external_body] fn vclone(&self) -> (r: Self) { unimplemented!() } }\n"),
+        Fn(file=E, name="lookup_struct_constructor", container="TypeEnv", ret="r", attrs="#[verifier::loop_isolation(false)]", rules=["attrs", ("strip", "tast::"), ("strip", "common::"), "opt_map", "iter_map_collect"],
+           pre_rewrites=[(re.compile(r"\|\(_, (\w+)\)\| (\w+\.clone\(\))"), r"|__nt| { let \1 = &__nt.1; \2 }", "*"), (re.compile(r"\b(\w+)\.is_empty\(\)"), r"(\1.len() == 0)", "*")],
+           rewrites=[(re.compile(r"\.clone\(\)"), ".vclone()", "*"), (re.compile(r"let (args|params): Vec<Ty> =\s*\{ let mut (__mo\d+) = Vec::new\(\);"), r"let \1: Vec<Ty> = { let mut \2: Vec<Ty> = Vec::new();", "*")],
+           ghost=[("let ctor_ty = if", "line-before", "let ghost __ps = params@; proof { assert(field_types(struct_def.fields@, __ps)); }")],
+           obligation="a struct's constructor carries the struct's name; its type is (declared field types, in order) -> (the struct at its own parameters); None for an unknown name",
+           contract="ensures (r is Some) == self.structs@.contains_key(constr.0@), r matches Some(p) ==> struct_ctor_ok(constr.0@, self.structs@[constr.0@], p),",
+           loop_fn=lambda k, header, kw: (lambda mt: (
+               (f"invariant __mi{mt.group(1)} <= struct_def.generics.len(), __mo{mt.group(1)}@.len() == __mi{mt.group(1)},\n"
+                f"  forall|j: int| 0 <= j < __mi{mt.group(1)} ==> (#[trigger] __mo{mt.group(1)}@[j]) == (Ty::TParam {{ name: struct_def.generics@[j].0 }}),\n decreases struct_def.generics.len() - __mi{mt.group(1)},")
+               if "generics" in header else
+               (f"invariant __mi{mt.group(1)} <= struct_def.fields.len(), __mo{mt.group(1)}@.len() == __mi{mt.group(1)},\n"
+                f"  forall|j: int| 0 <= j < __mi{mt.group(1)} ==> (#[trigger] __mo{mt.group(1)}@[j]) == struct_def.fields@[j].1,\n decreases struct_def.fields.len() - __mi{mt.group(1)},")) if mt else None)(re.search(r"__mi(\d+)", header))),
     ],
 )
